@@ -26,29 +26,7 @@ Proof.
   rewrite aget_filter_eq, N.eqb_refl in H. apply I. exact H.
 Qed.
 
-(* ---------- second_process_never_detects, lifted to the application ---------- *)
-
-Lemma app_second_process_never_detects H prm c p st timeout :
-  try_finalize H prm c p st timeout <> TFErrDiscrepancy.
-Proof.
-  unfold try_finalize. destruct (process c p (rp_strag prm) timeout) as [p1 o1] eqn:E1.
-  destruct o1.
-  - destruct (sc_commit sc); [destruct (finalize_block _ _ _)|]; discriminate.
-  - discriminate.
-  - destruct (process c p1 (rp_strag prm) _) as [p2 o2] eqn:E2.
-    assert (Hd : disc p1 = true) by (apply process_disc_shape in E1 as [_ ->]; reflexivity).
-    pose proof (second_process_never_detects c p1 (rp_strag prm)
-                  ((H + rp_round_timeout prm * 15 / 10 =? H)%Z) Hd) as Hn.
-    rewrite E2 in Hn. cbn [snd] in Hn.
-    destruct o2; try discriminate; try contradiction.
-    destruct (sc_commit sc); discriminate.
-  - destruct (finalize_block _ _ _); discriminate.
-  - destruct (finalize_block _ _ _); discriminate.
-  - destruct (finalize_block _ _ _); discriminate.
-  - discriminate.
-Qed.
-
-(* ---------- classification of a successful finalization attempt ---------- *)
+(* ---------- the stages of a finalization attempt ---------- *)
 
 Definition next_round_of (st : rt_state) : N := (rs_round st + 1) mod W64.
 
@@ -59,7 +37,87 @@ Definition deciding (H : Z) (prm : rt_params) (c : committee) (p : pool) (timeou
   | _ => (p, timeout)
   end.
 
-Inductive tf_kind := KWaiting | KNormal | KFailed.
+(* everything but the armed timeout is untouched by the first stage *)
+Definition same_block (st st1 : rt_state) : Prop :=
+  rs_round st1 = rs_round st /\ rs_root st1 = rs_root st /\ rs_htype st1 = rs_htype st /\
+  rs_committee st1 = rs_committee st /\ rs_suspended st1 = rs_suspended st /\
+  rs_io st1 = rs_io st /\ rs_prev st1 = rs_prev st /\ rs_msgs st1 = rs_msgs st /\
+  rs_live st1 = rs_live st /\ rs_results st1 = rs_results st.
+
+Lemma tf_decide_spec H prm c p st timeout st1 p2 o2 ev :
+  tf_decide H prm c p st timeout = (st1, p2, o2, ev) ->
+  same_block st st1 /\
+  process c (fst (deciding H prm c p timeout)) (rp_strag prm) (snd (deciding H prm c p timeout)) = (p2, o2) /\
+  o2 <> PDiscrepancy /\
+  ((ev = [] /\ st1 = st /\ snd (process c p (rp_strag prm) timeout) = o2) \/
+   (exists rank, ev = [EvDiscrepancy (next_round_of st) rank timeout] /\
+      snd (process c p (rp_strag prm) timeout) = PDiscrepancy /\
+      rs_next_timeout st1 = (H + rp_round_timeout prm * 15 / 10)%Z /\
+      snd (deciding H prm c p timeout) = (H + rp_round_timeout prm * 15 / 10 =? H)%Z)).
+Proof.
+  unfold tf_decide, deciding.
+  destruct (process c p (rp_strag prm) timeout) as [p1 o1] eqn:E1.
+  assert (Hsame : o1 <> PDiscrepancy -> p1 = p) by (apply (process_not_disc_same _ _ _ _ _ _ E1)).
+  assert (Hrefl : same_block st st) by (repeat split; reflexivity).
+  destruct o1; cbn [fst snd];
+    try (intros Hx; injection Hx as <- <- <- <-; rewrite (Hsame ltac:(discriminate)) in *;
+         split; [exact Hrefl|]; split; [exact E1|]; split; [discriminate|]; left; repeat split; reflexivity).
+  destruct (process c p1 (rp_strag prm) _) as [q2 q] eqn:E2.
+  intros Hx. injection Hx as <- <- <- <-.
+  split; [repeat split; reflexivity|]. split; [first [exact E2|reflexivity]|]. split.
+  - assert (Hd : disc p1 = true) by (apply process_disc_shape in E1 as [_ ->]; reflexivity).
+    pose proof (second_process_never_detects c p1 (rp_strag prm)
+                  ((H + rp_round_timeout prm * 15 / 10 =? H)%Z) Hd) as Hn.
+    rewrite E2 in Hn. exact Hn.
+  - right. exists (hr p1). repeat split; reflexivity.
+Qed.
+
+Lemma finalize_normal_spec prm c s p2 lv sc ec st2 e2 :
+  finalize_normal prm c s p2 lv sc ec = Some (st2, e2) ->
+  e2 = [EvFinalized (next_round_of s)] /\
+  rs_round st2 = next_round_of s /\ rs_htype st2 = HNormal /\
+  rs_root st2 = lookup (ec_vote ec) (rp_roots prm) /\
+  rs_io st2 = lookup (ec_vote ec) (rp_ios prm) /\
+  rs_msgs st2 = lookup (ec_vote ec) (rp_mhs prm) /\
+  rs_prev st2 = lookup (rs_round s) (rp_hashes prm) /\
+  rs_pool st2 = Some new_pool /\ rs_next_timeout st2 = TimeoutNever /\
+  rs_committee st2 = rs_committee s /\ rs_suspended st2 = rs_suspended s.
+Proof.
+  unfold finalize_normal. destruct (scheduler_idx c _ 0) as [first|]; [|discriminate].
+  destruct (live_loop _ _ _ _ _ _ _ _) as [[live good] bad].
+  unfold finalize_block. cbn. intros Hx. injection Hx as <- <-. repeat split; reflexivity.
+Qed.
+
+Lemma fail_round_spec prm c s p2 lv st2 e2 :
+  fail_round prm c s p2 lv = Some (st2, e2) ->
+  e2 = [EvFinalized (next_round_of s)] /\
+  rs_round st2 = next_round_of s /\ rs_htype st2 = HRoundFailed /\
+  rs_root st2 = rs_root s /\ rs_io st2 = rp_empty prm /\ rs_msgs st2 = rp_empty prm /\
+  rs_prev st2 = lookup (rs_round s) (rp_hashes prm) /\
+  rs_pool st2 = Some new_pool /\ rs_next_timeout st2 = TimeoutNever /\
+  rs_committee st2 = rs_committee s /\ rs_suspended st2 = rs_suspended s /\
+  rs_results st2 = rs_results s.
+Proof.
+  unfold fail_round. destruct (scheduler_idx c _ 0) as [first|]; [|discriminate].
+  unfold finalize_block. cbn. intros Hx. injection Hx as <- <-. repeat split; reflexivity.
+Qed.
+
+(* ---------- second_process_never_detects, lifted to the application ---------- *)
+
+Lemma app_second_process_never_detects H prm c p st timeout :
+  try_finalize H prm c p st timeout <> TFErrDiscrepancy.
+Proof.
+  unfold try_finalize. destruct (tf_decide H prm c p st timeout) as [[[st1 p2] o2] ev] eqn:E.
+  apply tf_decide_spec in E as (_ & _ & Hn & _).
+  destruct o2; try discriminate; try contradiction.
+  - destruct (sc_commit sc); [|discriminate].
+    destruct (finalize_normal _ _ _ _ _ _ _) as [[? ?]|]; discriminate.
+  - destruct (fail_round _ _ _ _ _) as [[? ?]|]; discriminate.
+  - destruct (fail_round _ _ _ _ _) as [[? ?]|]; discriminate.
+  - destruct (fail_round _ _ _ _ _) as [[? ?]|]; discriminate.
+Qed.
+
+(* ---------- classification of a successful finalization attempt ---------- *)
 
 Definition tf_shape (H : Z) (prm : rt_params) (c : committee) (p : pool) (st : rt_state) (timeout : bool)
            (st' : rt_state) (evs : list app_event) : Prop :=
@@ -72,51 +130,58 @@ Definition tf_shape (H : Z) (prm : rt_params) (c : committee) (p : pool) (st : r
         rs_round st' = next_round_of st /\ rs_htype st' = HNormal /\
         rs_root st' = lookup (ec_vote ec) (rp_roots prm) /\
         rs_pool st' = Some new_pool /\ rs_next_timeout st' = TimeoutNever /\
-        In (EvFinalized (next_round_of st)) evs
+        In (EvFinalized (next_round_of st)) evs /\
+        rs_io st' = lookup (ec_vote ec) (rp_ios prm) /\
+        rs_msgs st' = lookup (ec_vote ec) (rp_mhs prm) /\
+        rs_prev st' = lookup (rs_round st) (rp_hashes prm)
   | PStillWaiting =>
       rs_round st' = rs_round st /\ rs_root st' = rs_root st /\ rs_htype st' = rs_htype st /\
-      (forall r, ~ In (EvFinalized r) evs)
+      (forall r, ~ In (EvFinalized r) evs) /\
+      rs_io st' = rs_io st /\ rs_msgs st' = rs_msgs st /\ rs_prev st' = rs_prev st
   | PNoScheduler | PBadScheduler | PInsufficientVotes =>
       rs_round st' = next_round_of st /\ rs_htype st' = HRoundFailed /\
       rs_root st' = rs_root st /\
       rs_pool st' = Some new_pool /\ rs_next_timeout st' = TimeoutNever /\
-      In (EvFinalized (next_round_of st)) evs
+      In (EvFinalized (next_round_of st)) evs /\
+      rs_io st' = rp_empty prm /\ rs_msgs st' = rp_empty prm /\
+      rs_prev st' = lookup (rs_round st) (rp_hashes prm)
   | _ => False
   end.
 
 Lemma try_finalize_shape H prm c p st timeout st' evs :
   try_finalize H prm c p st timeout = TFOk st' evs -> tf_shape H prm c p st timeout st' evs.
 Proof.
-  unfold try_finalize, tf_shape, deciding.
-  destruct (process c p (rp_strag prm) timeout) as [p1 o1] eqn:E1.
-  assert (Hsame : o1 <> PDiscrepancy -> p1 = p) by (apply (process_not_disc_same _ _ _ _ _ _ E1)).
-  destruct o1; cbn [fst snd]; try rewrite E1; cbn [snd].
-  - (* Ok *) destruct (sc_commit sc) as [ec|] eqn:Ec; [|discriminate].
-    unfold finalize_block. intros Hx. injection Hx as <- <-. exists ec. cbn.
-    repeat split; try reflexivity. left. reflexivity.
-  - intros Hx. injection Hx as <- <-. cbn. repeat split; try reflexivity. intros r [].
-  - (* discrepancy, second call *)
-    destruct (process c p1 (rp_strag prm) _) as [p2 o2] eqn:E2. cbn [snd].
-    destruct o2.
-    + destruct (sc_commit sc) as [ec|] eqn:Ec; [|discriminate].
-      unfold finalize_block. intros Hx. injection Hx as <- <-. exists ec. cbn.
-      repeat split; try reflexivity. right. left. reflexivity.
-    + intros Hx. injection Hx as <- <-. cbn. repeat split; try reflexivity.
-      intros r [Hf|[]]. discriminate Hf.
-    + discriminate.
-    + unfold finalize_block. intros Hx. injection Hx as <- <-. cbn. repeat split; try reflexivity.
-      right. left. reflexivity.
-    + unfold finalize_block. intros Hx. injection Hx as <- <-. cbn. repeat split; try reflexivity.
-      right. left. reflexivity.
-    + unfold finalize_block. intros Hx. injection Hx as <- <-. cbn. repeat split; try reflexivity.
-      right. left. reflexivity.
-    + discriminate.
-  - unfold finalize_block. intros Hx. injection Hx as <- <-. cbn. repeat split; try reflexivity.
-    left. reflexivity.
-  - unfold finalize_block. intros Hx. injection Hx as <- <-. cbn. repeat split; try reflexivity.
-    left. reflexivity.
-  - unfold finalize_block. intros Hx. injection Hx as <- <-. cbn. repeat split; try reflexivity.
-    left. reflexivity.
+  unfold try_finalize, tf_shape.
+  destruct (tf_decide H prm c p st timeout) as [[[st1 p2] o2] ev] eqn:E.
+  apply tf_decide_spec in E as (Sb & Ep & Hn & Hev). rewrite Ep. cbn [snd].
+  destruct Sb as (B1 & B2 & B3 & B4 & B5 & B6 & B7 & B8 & B9 & B10).
+  assert (Hnofin : forall r, ~ In (EvFinalized r) ev).
+  { intros r Hin. destruct Hev as [(-> & _)|(rank & -> & _)]; [destruct Hin|].
+    destruct Hin as [Hf|[]]. discriminate Hf. }
+  assert (Hnr : next_round_of st1 = next_round_of st) by (unfold next_round_of; rewrite B1; reflexivity).
+  destruct o2; try contradiction.
+  - destruct (sc_commit sc) as [ec|] eqn:Ec; [|discriminate].
+    destruct (finalize_normal prm c st1 p2 (live_of st c) sc ec) as [[s2 e2]|] eqn:F; [|discriminate].
+    cbn [opt_result]. intros Hx. injection Hx as <- <-.
+    apply finalize_normal_spec in F as (-> & F1 & F2 & F3 & F4 & F5 & F6 & F7 & F8 & _).
+    exists ec. rewrite Hnr in *. rewrite B1 in F6. repeat split; try assumption.
+    apply in_or_app. right. left. reflexivity.
+  - intros Hx. injection Hx as <- <-. cbn. repeat split; try assumption.
+  - destruct (fail_round prm c st1 p2 (live_of st c)) as [[s2 e2]|] eqn:F; [|discriminate].
+    cbn [opt_result]. intros Hx. injection Hx as <- <-.
+    apply fail_round_spec in F as (-> & F1 & F2 & F3 & F4 & F5 & F6 & F7 & F8 & _).
+    rewrite Hnr in *. rewrite B1 in F6. rewrite B2 in F3. repeat split; try assumption.
+    apply in_or_app. right. left. reflexivity.
+  - destruct (fail_round prm c st1 p2 (live_of st c)) as [[s2 e2]|] eqn:F; [|discriminate].
+    cbn [opt_result]. intros Hx. injection Hx as <- <-.
+    apply fail_round_spec in F as (-> & F1 & F2 & F3 & F4 & F5 & F6 & F7 & F8 & _).
+    rewrite Hnr in *. rewrite B1 in F6. rewrite B2 in F3. repeat split; try assumption.
+    apply in_or_app. right. left. reflexivity.
+  - destruct (fail_round prm c st1 p2 (live_of st c)) as [[s2 e2]|] eqn:F; [|discriminate].
+    cbn [opt_result]. intros Hx. injection Hx as <- <-.
+    apply fail_round_spec in F as (-> & F1 & F2 & F3 & F4 & F5 & F6 & F7 & F8 & _).
+    rewrite Hnr in *. rewrite B1 in F6. rewrite B2 in F3. repeat split; try assumption.
+    apply in_or_app. right. left. reflexivity.
   - discriminate.
 Qed.
 
@@ -130,7 +195,7 @@ Proof.
 Qed.
 
 (* a Normal block is produced only if the rule held for the chosen commitment, and it carries
-   that commitment's state root *)
+   that commitment's state root, IO root and messages hash *)
 Lemma normal_block_only_if_rule H prm c p st timeout st' evs :
   hr_entry_ok c p ->
   try_finalize H prm c p st timeout = TFOk st' evs ->
@@ -148,13 +213,13 @@ Proof.
   destruct o; try contradiction.
   - destruct Htf as (ec & Hc & _ & _ & Hroot & _). exists sc, ec. repeat split; try assumption.
     eapply finalize_only_if_rule; [|exact E]. apply deciding_hr_entry_ok. exact I.
-  - destruct Htf as (_ & _ & _ & Hno). exfalso. apply (Hno _ Hev).
+  - destruct Htf as (_ & _ & _ & Hno & _). exfalso. apply (Hno _ Hev).
   - destruct Htf as (_ & Hf & _). congruence.
   - destruct Htf as (_ & Hf & _). congruence.
   - destruct Htf as (_ & Hf & _). congruence.
 Qed.
 
-(* whenever the state root changes, a Normal block for the next round was produced *)
+(* a failed round keeps the previous state root; its IO root and messages hash are empty *)
 Lemma failed_round_keeps_state_root H prm c p st timeout st' evs :
   try_finalize H prm c p st timeout = TFOk st' evs ->
   rs_htype st' = HRoundFailed -> In (EvFinalized (next_round_of st)) evs ->
@@ -164,10 +229,25 @@ Proof.
   intros Htf Hf Hev. apply try_finalize_shape in Htf. unfold tf_shape in Htf.
   destruct (snd (process c _ (rp_strag prm) _)); try contradiction.
   - destruct Htf as (ec & _ & _ & Hn & _). congruence.
-  - destruct Htf as (_ & _ & _ & Hno). exfalso. apply (Hno _ Hev).
+  - destruct Htf as (_ & _ & _ & Hno & _). exfalso. apply (Hno _ Hev).
   - destruct Htf as (A & _ & B & C & D & _). repeat split; assumption.
   - destruct Htf as (A & _ & B & C & D & _). repeat split; assumption.
   - destruct Htf as (A & _ & B & C & D & _). repeat split; assumption.
+Qed.
+
+Lemma failed_round_header H prm c p st timeout st' evs :
+  try_finalize H prm c p st timeout = TFOk st' evs ->
+  rs_htype st' = HRoundFailed -> In (EvFinalized (next_round_of st)) evs ->
+  rs_root st' = rs_root st /\ rs_io st' = rp_empty prm /\ rs_msgs st' = rp_empty prm /\
+  rs_prev st' = lookup (rs_round st) (rp_hashes prm) /\ rs_round st' = next_round_of st.
+Proof.
+  intros Htf Hf Hev. apply try_finalize_shape in Htf. unfold tf_shape in Htf.
+  destruct (snd (process c _ (rp_strag prm) _)); try contradiction.
+  - destruct Htf as (ec & _ & _ & Hn & _). congruence.
+  - destruct Htf as (_ & _ & _ & Hno & _). exfalso. apply (Hno _ Hev).
+  - destruct Htf as (A & _ & B & _ & _ & _ & C & D & E). repeat split; assumption.
+  - destruct Htf as (A & _ & B & _ & _ & _ & C & D & E). repeat split; assumption.
+  - destruct Htf as (A & _ & B & _ & _ & _ & C & D & E). repeat split; assumption.
 Qed.
 
 Lemma state_root_changes_only_with_normal_block H prm c p st timeout st' evs :
@@ -196,34 +276,30 @@ Lemma timeout_never_keeps_waiting H prm c p st st' evs :
     rs_next_timeout st' <> H.
 Proof.
   unfold try_finalize. intros Htf Hno.
-  pose proof (no_wait_after_timeout c p (rp_strag prm)) as Hnw.
-  destruct (process c p (rp_strag prm) true) as [p1 o1] eqn:E1. cbn [snd] in *.
-  destruct o1.
-  - destruct (sc_commit sc); [|discriminate]. unfold finalize_block in Htf. injection Htf as <- <-.
-    exfalso. apply (Hno (next_round_of st)). left. reflexivity.
-  - contradiction.
-  - destruct (process c p1 (rp_strag prm) (H + rp_round_timeout prm * 15 / 10 =? H)%Z) as [p2 o2] eqn:E2.
-    destruct o2.
-    + destruct (sc_commit sc); [|discriminate]. unfold finalize_block in Htf. injection Htf as <- <-.
-      exfalso. apply (Hno (next_round_of st)). right. left. reflexivity.
-    + injection Htf as <- <-. exists (hr p1). cbn. repeat split; try reflexivity.
-      destruct (H + rp_round_timeout prm * 15 / 10 =? H)%Z eqn:Et; [|lia].
-      exfalso. pose proof (no_wait_after_timeout c p1 (rp_strag prm)) as Hn2.
-      rewrite E2 in Hn2. apply Hn2. reflexivity.
-    + discriminate.
-    + unfold finalize_block in Htf. injection Htf as <- <-.
-      exfalso. apply (Hno (next_round_of st)). right. left. reflexivity.
-    + unfold finalize_block in Htf. injection Htf as <- <-.
-      exfalso. apply (Hno (next_round_of st)). right. left. reflexivity.
-    + unfold finalize_block in Htf. injection Htf as <- <-.
-      exfalso. apply (Hno (next_round_of st)). right. left. reflexivity.
-    + discriminate.
-  - unfold finalize_block in Htf. injection Htf as <- <-.
-    exfalso. apply (Hno (next_round_of st)). left. reflexivity.
-  - unfold finalize_block in Htf. injection Htf as <- <-.
-    exfalso. apply (Hno (next_round_of st)). left. reflexivity.
-  - unfold finalize_block in Htf. injection Htf as <- <-.
-    exfalso. apply (Hno (next_round_of st)). left. reflexivity.
+  destruct (tf_decide H prm c p st true) as [[[st1 p2] o2] ev] eqn:E.
+  apply tf_decide_spec in E as (Sb & Ep & Hn & Hev).
+  destruct o2; try contradiction.
+  - destruct (sc_commit sc) as [ec|]; [|discriminate].
+    destruct (finalize_normal _ _ _ _ _ _ _) as [[s2 e2]|] eqn:F; [|discriminate].
+    injection Htf as <- <-. apply finalize_normal_spec in F as (-> & _).
+    exfalso. apply (Hno (next_round_of st1)). apply in_or_app. right. left. reflexivity.
+  - injection Htf as <- <-.
+    destruct Hev as [(-> & -> & Ho)|(rank & -> & Ho & Hnt & Hte)].
+    + exfalso. apply (no_wait_after_timeout c p (rp_strag prm)). exact Ho.
+    + exists rank. cbn [with_pool rs_next_timeout]. repeat split; try assumption.
+      rewrite Hnt. destruct (H + rp_round_timeout prm * 15 / 10 =? H)%Z eqn:Et; [|lia].
+      exfalso. rewrite Hte in Ep.
+      pose proof (no_wait_after_timeout c (fst (deciding H prm c p true)) (rp_strag prm)) as Hn2.
+      rewrite Ep in Hn2. apply Hn2. reflexivity.
+  - destruct (fail_round _ _ _ _ _) as [[s2 e2]|] eqn:F; [|discriminate].
+    injection Htf as <- <-. apply fail_round_spec in F as (-> & _).
+    exfalso. apply (Hno (next_round_of st1)). apply in_or_app. right. left. reflexivity.
+  - destruct (fail_round _ _ _ _ _) as [[s2 e2]|] eqn:F; [|discriminate].
+    injection Htf as <- <-. apply fail_round_spec in F as (-> & _).
+    exfalso. apply (Hno (next_round_of st1)). apply in_or_app. right. left. reflexivity.
+  - destruct (fail_round _ _ _ _ _) as [[s2 e2]|] eqn:F; [|discriminate].
+    injection Htf as <- <-. apply fail_round_spec in F as (-> & _).
+    exfalso. apply (Hno (next_round_of st1)). apply in_or_app. right. left. reflexivity.
   - discriminate.
 Qed.
 
@@ -235,16 +311,34 @@ Definition active (st : rt_state) : Prop :=
 
 Definition armed_ok (st : rt_state) : Prop := rs_next_timeout st <> TimeoutNever -> active st.
 
-Lemma armed_ok_new round root : armed_ok (new_runtime round root).
+Lemma armed_ok_new prm round root : armed_ok (new_runtime prm round root).
 Proof. intros H. cbn in H. contradiction. Qed.
 
-Lemma finalize_block_timeout st ht root : rs_next_timeout (fst (finalize_block st ht root)) = TimeoutNever.
-Proof. reflexivity. Qed.
-
-Lemma begin_block_armed_ok st ep : armed_ok st -> armed_ok (fst (begin_block st ep)).
+Lemma finalize_block_fields prm st ht hdr :
+  let s := fst (finalize_block prm st ht hdr) in
+  rs_next_timeout s = TimeoutNever /\ rs_round s = (rs_round st + 1) mod W64 /\ rs_htype s = ht /\
+  rs_prev s = lookup (rs_round st) (rp_hashes prm) /\
+  rs_committee s = rs_committee st /\ rs_suspended s = rs_suspended st /\
+  rs_pool s = (match ht with HSuspended => None | _ => Some new_pool end) /\
+  snd (finalize_block prm st ht hdr) = [EvFinalized ((rs_round st + 1) mod W64)] /\
+  (ht <> HNormal -> rs_root s = rs_root st /\ rs_io s = rp_empty prm /\ rs_msgs s = rp_empty prm).
 Proof.
-  intros I. destruct ep as [[c|]|]; cbn [begin_block finalize_block fst]; [| |exact I];
-    intros H; cbn in H; contradiction.
+  unfold finalize_block. destruct ht, hdr as [[[a b] d]|]; cbn; repeat split; try reflexivity;
+    try (intros Hx; first [contradiction|repeat split; reflexivity]); try contradiction.
+Qed.
+
+Lemma finalize_block_timeout prm st ht root : rs_next_timeout (fst (finalize_block prm st ht root)) = TimeoutNever.
+Proof. apply (finalize_block_fields prm st ht root). Qed.
+
+Lemma begin_block_armed_ok prm st ep : armed_ok st -> armed_ok (fst (begin_block prm st ep)).
+Proof.
+  intros I. destruct ep as [[c|]|]; cbn [begin_block]; [| |exact I].
+  - pose proof (finalize_block_timeout prm st HEpochTransition None) as T.
+    destruct (finalize_block prm st HEpochTransition None) as [s e]. cbn [fst] in *.
+    intros H. cbn in H. contradiction.
+  - pose proof (finalize_block_timeout prm st HSuspended None) as T.
+    destruct (finalize_block prm st HSuspended None) as [s e]. cbn [fst] in *.
+    intros H. cbn in H. contradiction.
 Qed.
 
 Lemma executor_commit_cases H prm st vcs :
@@ -252,7 +346,8 @@ Lemma executor_commit_cases H prm st vcs :
   (snd (executor_commit H prm st vcs) = true /\
    rs_suspended st = false /\ rs_committee st <> None /\
    exists p1 nt, fst (fst (executor_commit H prm st vcs)) =
-     mkRS (rs_round st) (rs_root st) (rs_htype st) (Some p1) (rs_committee st) (rs_suspended st) nt).
+     mkRS (rs_round st) (rs_root st) (rs_htype st) (Some p1) (rs_committee st) (rs_suspended st) nt
+          (rs_io st) (rs_prev st) (rs_msgs st) (rs_live st) (rs_results st)).
 Proof.
   unfold executor_commit. destruct vcs as [|vc r]; [left; split; reflexivity|].
   destruct (rs_suspended st) eqn:Es; [left; split; reflexivity|].
@@ -307,26 +402,25 @@ Lemma try_finalize_armed_ok H prm c p st timeout st' evs :
   try_finalize H prm c p st timeout = TFOk st' evs -> active st' \/ rs_next_timeout st' = TimeoutNever.
 Proof.
   intros Hs Hc. unfold try_finalize.
-  destruct (process c p (rp_strag prm) timeout) as [p1 o1].
-  assert (Hfb : forall s ht root s' e, finalize_block s ht root = (s', e) -> rs_next_timeout s' = TimeoutNever).
-  { intros s ht root s' e Hx. unfold finalize_block in Hx. injection Hx as <- _. reflexivity. }
-  destruct o1.
-  - destruct (sc_commit sc); [|discriminate]. destruct (finalize_block _ _ _) as [s e] eqn:F.
-    intros Hx. injection Hx as <- _. right. eapply Hfb. exact F.
-  - intros Hx. injection Hx as <- _. left. unfold active. cbn. rewrite ?Hs, ?Hc. repeat split; try reflexivity; discriminate.
-  - destruct (process c p1 (rp_strag prm) _) as [p2 o2]. destruct o2.
-    + destruct (sc_commit sc); [|discriminate]. destruct (finalize_block _ _ _) as [s e] eqn:F.
-      intros Hx. injection Hx as <- _. right. eapply Hfb. exact F.
-    + intros Hx. injection Hx as <- _. left. unfold active. cbn. rewrite ?Hs, ?Hc. repeat split; try reflexivity; discriminate.
-    + discriminate.
-    + destruct (finalize_block _ _ _) as [s e] eqn:F. intros Hx. injection Hx as <- _. right. eapply Hfb. exact F.
-    + destruct (finalize_block _ _ _) as [s e] eqn:F. intros Hx. injection Hx as <- _. right. eapply Hfb. exact F.
-    + destruct (finalize_block _ _ _) as [s e] eqn:F. intros Hx. injection Hx as <- _. right. eapply Hfb. exact F.
-    + discriminate.
-  - destruct (finalize_block _ _ _) as [s e] eqn:F. intros Hx. injection Hx as <- _. right. eapply Hfb. exact F.
-  - destruct (finalize_block _ _ _) as [s e] eqn:F. intros Hx. injection Hx as <- _. right. eapply Hfb. exact F.
-  - destruct (finalize_block _ _ _) as [s e] eqn:F. intros Hx. injection Hx as <- _. right. eapply Hfb. exact F.
-  - discriminate.
+  destruct (tf_decide H prm c p st timeout) as [[[st1 p2] o2] ev] eqn:E.
+  apply tf_decide_spec in E as (Sb & _).
+  destruct Sb as (_ & _ & _ & B4 & B5 & _).
+  destruct o2; try discriminate.
+  - destruct (sc_commit sc); [|discriminate].
+    destruct (finalize_normal _ _ _ _ _ _ _) as [[s2 e2]|] eqn:F; [|discriminate].
+    intros Hx. injection Hx as <- _. apply finalize_normal_spec in F as (_ & _ & _ & _ & _ & _ & _ & _ & F & _).
+    right. exact F.
+  - intros Hx. injection Hx as <- _. left. unfold active. cbn. rewrite B4, B5, Hs, Hc.
+    repeat split; try reflexivity; discriminate.
+  - destruct (fail_round _ _ _ _ _) as [[s2 e2]|] eqn:F; [|discriminate].
+    intros Hx. injection Hx as <- _. apply fail_round_spec in F as (_ & _ & _ & _ & _ & _ & _ & _ & F & _).
+    right. exact F.
+  - destruct (fail_round _ _ _ _ _) as [[s2 e2]|] eqn:F; [|discriminate].
+    intros Hx. injection Hx as <- _. apply fail_round_spec in F as (_ & _ & _ & _ & _ & _ & _ & _ & F & _).
+    right. exact F.
+  - destruct (fail_round _ _ _ _ _) as [[s2 e2]|] eqn:F; [|discriminate].
+    intros Hx. injection Hx as <- _. apply fail_round_spec in F as (_ & _ & _ & _ & _ & _ & _ & _ & F & _).
+    right. exact F.
 Qed.
 
 Lemma try_finalize_round_armed_ok H prm st timeout st' evs :
@@ -335,7 +429,7 @@ Proof.
   unfold try_finalize_round. destruct (rs_suspended st) eqn:Es; [discriminate|].
   destruct (rs_committee st) as [c|] eqn:Ec; [|discriminate].
   destruct (rs_pool st) as [p|] eqn:Ep; [|discriminate].
-  destruct (try_finalize H prm c p st timeout) as [s e| | |] eqn:E; cbn [tf_end]; try discriminate.
+  destruct (try_finalize H prm c p st timeout) as [s e| | | |] eqn:E; cbn [tf_end]; try discriminate.
   intros Hx. injection Hx as <- _.
   destruct (try_finalize_armed_ok _ _ _ _ _ _ _ _ Es Ec E) as [A|A]; intros Hn; [exact A|contradiction].
 Qed.
@@ -358,8 +452,8 @@ Qed.
 Lemma app_block_armed_ok prm st b : armed_ok st -> armed_ok (fst (app_block prm st b)).
 Proof.
   intros I. unfold app_block.
-  pose proof (begin_block_armed_ok st (ab_epoch b) I) as I1.
-  destruct (begin_block st (ab_epoch b)) as [st1 eb]. cbn [fst] in I1.
+  pose proof (begin_block_armed_ok prm st (ab_epoch b) I) as I1.
+  destruct (begin_block prm st (ab_epoch b)) as [st1 eb]. cbn [fst] in I1.
   destruct (run_txs (ab_height b) prm st1 (ab_txs b) false) as [[st2 codes] fin] eqn:Et.
   apply run_txs_spec in Et as [A _]. specialize (A I1).
   destruct (end_block (ab_height b) prm st2 fin) as [s e|cd] eqn:Ee; cbn [fst].
@@ -375,11 +469,11 @@ Qed.
 
 (* whenever the runtime is suspended, no round timeout is armed *)
 Lemma suspended_runtime_has_no_armed_timeout prm bs round root :
-  rs_suspended (app_states prm (new_runtime round root) bs) = true ->
-  rs_next_timeout (app_states prm (new_runtime round root) bs) = TimeoutNever.
+  rs_suspended (app_states prm (new_runtime prm round root) bs) = true ->
+  rs_next_timeout (app_states prm (new_runtime prm round root) bs) = TimeoutNever.
 Proof.
-  intros Hs. pose proof (app_states_armed_ok prm bs _ (armed_ok_new round root)) as I.
-  destruct (Z.eq_dec (rs_next_timeout (app_states prm (new_runtime round root) bs)) TimeoutNever) as [E|E];
+  intros Hs. pose proof (app_states_armed_ok prm bs _ (armed_ok_new prm round root)) as I.
+  destruct (Z.eq_dec (rs_next_timeout (app_states prm (new_runtime prm round root) bs)) TimeoutNever) as [E|E];
     [exact E|]. destruct (I E) as [A _]. congruence.
 Qed.
 
@@ -389,8 +483,8 @@ Lemma end_block_never_fails_on_inactive_runtime prm st b :
   armed_ok st -> (0 < ab_height b)%Z -> bo_halt (snd (app_block prm st b)) <> 1.
 Proof.
   intros I Hpos. unfold app_block.
-  pose proof (begin_block_armed_ok st (ab_epoch b) I) as I1.
-  destruct (begin_block st (ab_epoch b)) as [st1 eb]. cbn [fst] in I1.
+  pose proof (begin_block_armed_ok prm st (ab_epoch b) I) as I1.
+  destruct (begin_block prm st (ab_epoch b)) as [st1 eb]. cbn [fst] in I1.
   destruct (run_txs (ab_height b) prm st1 (ab_txs b) false) as [[st2 codes] fin] eqn:Et.
   apply run_txs_spec in Et as [A B]. specialize (A I1).
   assert (Hact : fin = true -> active st2) by (apply B; discriminate).
